@@ -26,10 +26,12 @@ TORSION_DEF = {                # mirrors TorsionLattice!TorsionDef; the trace sp
 PURINES = ("A", "G", "DA", "DG")
 PYRIMIDINES = ("C", "U", "T", "DC", "DT")
 # corpus files (under $VERIF_REPO/tests): RNA structures with A-form stems, single model
-CORPUS_QUICK = ["1E7K_1_C.cif", "1DFU_1_M-N.cif", "4WTI_1_T-P.cif"]
+CORPUS_QUICK = ["1E7K_1_C.cif", "1DFU_1_M-N.cif", "4WTI_1_T-P.cif", "1ehz-assembly-1.cif", "1E7K_1_C.cif#drop0",
+                "1DFU_1_M-N.cif#drop1"]
 CORPUS_THOROUGH = ["1E7K_1_C.cif", "1DFU_1_M-N.cif", "4WTI_1_T-P.cif", "1ehz-assembly-1.cif", "4qln.pdb",
                    "4qln.cif", "6FC9.cif", "184D.cif", "1JJP.cif", "1HMH_1_E.cif",
-                   "4gqj-assembly1.cif", "8btk_B7.cif", "488d.pdb"]
+                   "4gqj-assembly1.cif", "8btk_B7.cif", "488d.pdb", "1E7K_1_C.cif#drop0", "1DFU_1_M-N.cif#drop1",
+                   "1ehz-assembly-1.cif#drop2", "1JJP.cif#drop0"]
 AFORM_QUICK = ["1E7K_1_C.cif"]
 AFORM_THOROUGH = ["1E7K_1_C.cif", "1ehz-assembly-1.cif", "4qln.pdb", "4qln.cif"]
 
@@ -216,13 +218,43 @@ def _milli(v):
     return [int(round(float(x) * 1000)) for x in v]
 
 
-def _absent():
-    return {"present": False, "res": {"err": "", "nan": False, "v": 0}, "xyz": [],
-            "ref": {"err": "", "nan": False, "v": 0}}
+def _absent(asked_res=None):
+    """a path without the four atoms; asked_res = what the library answered when asked all the same"""
+    d = {"present": False, "res": {"err": "", "nan": False, "v": 0}, "xyz": [],
+         "ref": {"err": "", "nan": False, "v": 0}, "asked": asked_res is not None, "undef": True}
+    if asked_res is not None:
+        d["undef"] = bool(asked_res["nan"] and asked_res["err"] == "")
+        d["res"] = asked_res
+    return d
 
 
 def _path(res, coords):
-    return {"present": True, "res": res, "xyz": [_milli(x) for x in coords], "ref": result(ref_torsion, *coords)}
+    return {"present": True, "res": res, "xyz": [_milli(x) for x in coords], "ref": result(ref_torsion, *coords),
+            "asked": True, "undef": False}
+
+
+GLYCO_ATOMS = ("N9", "N1", "C4", "C2")
+
+
+def _variant_text(name):
+    """'<file>#drop<k>': the corpus file re-emitted (own emitter) with ONE glycosidic atom (N9 | N1 | C4 | C2,
+    in turn) removed from every third residue - a residue whose chi is not defined."""
+    from . import atomtable, presentation
+    base, var = name.split("#")
+    k = int(var[4:])
+    lines = presentation.base_lines(base)
+    if lines is None:
+        raise lib.MachineryError(f"{base}: not usable for an atom-drop variant")
+    out, idx, key = [], -1, None
+    for ln in lines:
+        kk = (ln["ch"], ln["num"], ln["ic"])
+        if kk != key:
+            key = kk
+            idx += 1
+        if idx % 3 == k % 3 and ln["an"] == GLYCO_ATOMS[(idx // 3 + k) % 4]:
+            continue
+        out.append(ln)
+    return atomtable.emit("cif", out)
 
 
 def record_corpus_file(name):
@@ -230,13 +262,21 @@ def record_corpus_file(name):
     paths: tertiary_v2.Structure.torsion_angles (table) and tertiary.torsion_angle /
     Residue3D.chi on the structure read by rnapolis.parser.  Residues are matched by
     (chain, number, insertion code); a path that has no value for a torsion is 'absent'."""
+    import io
     from rnapolis import parser, parser_v2, tertiary, tertiary_v2
-    path = os.path.join(lib.REPO, "tests", name)
-    with open(path) as f:
-        text = f.read()
-    with open(path) as f:
+    if "#" in name:
+        text, iscif = _variant_text(name), True
+    else:
+        with open(os.path.join(lib.REPO, "tests", name)) as f:
+            text = f.read()
+        iscif = name.endswith(".cif")
+    import tempfile
+    with tempfile.NamedTemporaryFile("w+", suffix=".cif" if iscif else ".pdb", delete=True) as f:
+        f.write(text)
+        f.flush()
+        f.seek(0)
         s1 = parser.read_3d_structure(f)
-    df = parser_v2.parse_cif_atoms(text) if name.endswith(".cif") else parser_v2.parse_pdb_atoms(text)
+    df = parser_v2.parse_cif_atoms(text) if iscif else parser_v2.parse_pdb_atoms(text)
     st = tertiary_v2.Structure(df)
     table = st.torsion_angles
     # path 1 index
@@ -282,6 +322,9 @@ def record_corpus_file(name):
             at2 = [seg[i + o].find_atom(a) if 0 <= i + o < len(seg) else None for a, o in d]
             if val is not None and not (isinstance(val, float) and math.isnan(val)) and all(a is not None for a in at2):
                 p2 = _path(result(lambda v=val: v), [np.asarray(a.coordinates, dtype=float) for a in at2])
+            elif angle.startswith("chi") and not all(a is not None for a in at2):
+                # the glycosidic atoms are not all there: whatever the table holds for chi is recorded
+                p2 = _absent(result(lambda v=val: float("nan") if v is None else v))
             # ---- path 1: tertiary.torsion_angle on Residue3D atoms / Residue3D.chi
             p1 = _absent()
             cls = "none"
@@ -294,7 +337,11 @@ def record_corpus_file(name):
                 else:
                     res = result(tertiary.torsion_angle, *at1)
                 p1 = _path(res, [np.asarray(a.coordinates, dtype=float) for a in at1])
-            if not p1["present"] and not p2["present"]:
+            elif angle.startswith("chi") and r1 is not None:
+                p1 = _absent(result(lambda: r1.chi))
+                cc = r1.chi_class
+                cls = "none" if cc is None else cc.value
+            if not p1["present"] and not p2["present"] and not (p1["asked"] or p2["asked"]):
                 continue
             meas[col] = (p1, p2)
             cases.append({"id": f"tor-{name}-{key[0]}.{key[1]}{key[2]}-{angle}", "kind": "tor", "file": name,
